@@ -178,7 +178,8 @@ Section PMT.
   Local Open Scope N_scope.
 
   (* treeDepth / nextPowerOfTwo (for 1 <= n <= 2^31; the Go loop does not
-     terminate above that, see notes) *)
+     terminate above that, which is why CheckMerkleBlock now bounds the count by
+     pact.MaxTxPerBlock first, see notes) *)
   Fixpoint depth_from (fuel : nat) (e n : N) : N :=
     match fuel with
     | O => e
@@ -270,9 +271,13 @@ Section PMT.
       end
     end.
 
+  (* pact.MaxTxPerBlock (default value) *)
+  Definition max_tx_per_block : N := 10000.
+
   (* CheckMerkleBlock; [n] is m.Transactions *)
   Definition check_merkle_block (n : N) (root : hash) (flags : list N) (hs : list hash) : outcome :=
     if (n =? 0) || (N.of_nat (length flags) =? 0) then Reject
+    else if max_tx_per_block <? n then Reject     (* "Too many transactions in merkleblock" *)
     else
       let msb := next_pow2 n in
       check_iter (16 * length flags + 8) n msb root
